@@ -1150,6 +1150,16 @@ def explore(fn, timeout_ms=20000, max_paths=2000, raises=(), margin_models=True)
             pass
         except SkipSample:
             pass
+        except Exception as e:
+            # the code under test raised something it does not document on a feasible path: a candidate violation, to be
+            # confirmed by replaying a model of the path on the real code
+            npaths += 1
+            r, m, _ = ctx.check()
+            if r == "sat":
+                obligations.append(dict(name=f"no_undocumented_exception/{type(e).__name__}", path=npaths, verdict="sat", canonical_zero=False,
+                                        model=ctx.model_named(m), exception=f"{type(e).__name__}: {e}"))
+            elif r == "unknown":
+                aborted.append(f"path {npaths}: {type(e).__name__} on a path of unknown feasibility")
         finally:
             Ctx.cur = None
             nvars_max = max(nvars_max, ctx.nvar)
